@@ -10,9 +10,18 @@ use crate::server::request_hook::verif_kani::{any_b, any_ctx, marker, Ev, Log};
 use crate::verif_kani_support::run;
 
 #[kani::proof]
-#[kani::stub(tracing::__macro_support::__is_enabled, crate::verif_kani_support::tracing_never_enabled)]
-#[kani::stub(tracing::__macro_support::MacroCallsite::interest, crate::verif_kani_support::tracing_interest_never)]
-#[kani::stub(tracing::Event::dispatch, crate::verif_kani_support::tracing_no_dispatch)]
+#[kani::stub(
+    tracing::__macro_support::__is_enabled,
+    crate::verif_kani_support::tracing_never_enabled
+)]
+#[kani::stub(
+    tracing::__macro_support::MacroCallsite::interest,
+    crate::verif_kani_support::tracing_interest_never
+)]
+#[kani::stub(
+    tracing::Event::dispatch,
+    crate::verif_kani_support::tracing_no_dispatch
+)]
 #[kani::unwind(8)]
 fn k4_cons_first_then_rest_any_rest() {
     let log = Log::new();
@@ -26,12 +35,24 @@ fn k4_cons_first_then_rest_any_rest() {
     let out = run(cons.before(&mut ctx, &req));
     let l = log.borrow();
     kani::cover!(!f1 && f2, "reachable: rest fails");
-    assert!(l.evs[0] == Some(Ev::Before(1, m0)), "C19: first runs first, on the incoming context");
+    assert!(
+        l.evs[0] == Some(Ev::Before(1, m0)),
+        "C19: first runs first, on the incoming context"
+    );
     if f1 {
-        assert!(l.n == 1 && out.is_err() && marker(&ctx) == m1, "C19: first failure stops the chain: rest is not run");
+        assert!(
+            l.n == 1 && out.is_err() && marker(&ctx) == m1,
+            "C19: first failure stops the chain: rest is not run"
+        );
     } else {
-        assert!(l.n == 2 && l.evs[1] == Some(Ev::Before(2, m1)), "C19: rest runs after first and sees first's context change");
-        assert!(out.is_err() == f2 && marker(&ctx) == m2, "C19: the chain's result is rest's result; context as rest left it");
+        assert!(
+            l.n == 2 && l.evs[1] == Some(Ev::Before(2, m1)),
+            "C19: rest runs after first and sees first's context change"
+        );
+        assert!(
+            out.is_err() == f2 && marker(&ctx) == m2,
+            "C19: the chain's result is rest's result; context as rest left it"
+        );
     }
 }
 
@@ -68,9 +89,18 @@ impl<'a> BeforeRequestList<u32> for RL<'a> {
 /// `rest` whose own `then` appends at its end -- yields the order first, rest, next: `then`
 /// appends at the END of the chain, for every chain length.
 #[kani::proof]
-#[kani::stub(tracing::__macro_support::__is_enabled, crate::verif_kani_support::tracing_never_enabled)]
-#[kani::stub(tracing::__macro_support::MacroCallsite::interest, crate::verif_kani_support::tracing_interest_never)]
-#[kani::stub(tracing::Event::dispatch, crate::verif_kani_support::tracing_no_dispatch)]
+#[kani::stub(
+    tracing::__macro_support::__is_enabled,
+    crate::verif_kani_support::tracing_never_enabled
+)]
+#[kani::stub(
+    tracing::__macro_support::MacroCallsite::interest,
+    crate::verif_kani_support::tracing_interest_never
+)]
+#[kani::stub(
+    tracing::Event::dispatch,
+    crate::verif_kani_support::tracing_no_dispatch
+)]
 #[kani::unwind(8)]
 fn k4_cons_then_appends_at_end_any_rest() {
     let log = Log::new();
@@ -79,7 +109,14 @@ fn k4_cons_then_appends_at_end_any_rest() {
     let first = any_b(1, &log);
     let rest = any_b(2, &log);
     let next = any_b(3, &log);
-    let (f1, m1, f2, m2, f3, m3) = (first.fail, first.new_marker, rest.fail, rest.new_marker, next.fail, next.new_marker);
+    let (f1, m1, f2, m2, f3, m3) = (
+        first.fail,
+        first.new_marker,
+        rest.fail,
+        rest.new_marker,
+        next.fail,
+        next.new_marker,
+    );
     let mut chain = BeforeRequestCons(first, RL(rest)).then(next);
     let mut ctx = any_ctx(m0);
     let out = run(chain.before(&mut ctx, &req));
@@ -87,14 +124,29 @@ fn k4_cons_then_appends_at_end_any_rest() {
     kani::cover!(!f1 && !f2 && !f3, "reachable: all pass");
     assert!(l.evs[0] == Some(Ev::Before(1, m0)), "C19: head first");
     if f1 {
-        assert!(l.n == 1 && out.is_err(), "C19: head failure stops the chain");
+        assert!(
+            l.n == 1 && out.is_err(),
+            "C19: head failure stops the chain"
+        );
     } else {
-        assert!(l.evs[1] == Some(Ev::Before(2, m1)), "C19: the existing tail runs before the appended hook and sees the head's context");
+        assert!(
+            l.evs[1] == Some(Ev::Before(2, m1)),
+            "C19: the existing tail runs before the appended hook and sees the head's context"
+        );
         if f2 {
-            assert!(l.n == 2 && out.is_err(), "C19: a failure in the tail stops the chain before the appended hook");
+            assert!(
+                l.n == 2 && out.is_err(),
+                "C19: a failure in the tail stops the chain before the appended hook"
+            );
         } else {
-            assert!(l.n == 3 && l.evs[2] == Some(Ev::Before(3, m2)), "C19: the appended hook runs last and sees every earlier change");
-            assert!(out.is_err() == f3 && marker(&ctx) == m3, "C19: result and context are those of the last hook");
+            assert!(
+                l.n == 3 && l.evs[2] == Some(Ev::Before(3, m2)),
+                "C19: the appended hook runs last and sees every earlier change"
+            );
+            assert!(
+                out.is_err() == f3 && marker(&ctx) == m3,
+                "C19: result and context are those of the last hook"
+            );
         }
     }
 }
